@@ -28,6 +28,9 @@ CHECKS = {
  "C07": dict(tech="PBT (proptest) constructed bankruptcies + exact-rational settlement oracle + terminality probe",
    text="Generated depositor distributions, debt sizes up to 100% utilisation with fee-bearing accrual (so debt can exceed deposits), insurance placed below/at(+-2)/above the debt, signer x permissionless matrix, partial crashes as not-bankrupt controls, Token-2022 transfer fees. Every success judged in exact rationals (entitlement, real bankruptcy under at least one admissible reading, insurance first, exact pro-rata socialisation with untouched deposit shares, non-negative share value, kill on wipe-out, account disabled and debt cleared) and a killed bank is probed with every configure_bank(operational_state) and a deposit.",
    ref="DESIGN.md §6 C07"),
+ "C08": dict(tech="exhaustive authorization matrix (instruction x signer identity x account state, instruction x slot x substitute) over generated worlds, judged against a hand-written role table and slot-binding table",
+   text="61 non-venue instructions x 113 (instruction, account-state variant) cases per world: every signer slot x {entitled, stranger, group admin, each delegated admin, fee admin, another user, liquidation receiver} x {signature bit on/off}, with the account normal / frozen / inside an active receivership / disabled; every non-free account slot x every applicable foreign substitute (foreign-group object, sibling bank and its vaults/authorities, wrong-seed PDA, byte-identical clone under another owner or at another address, regrouped copy, empty system account, other token program / mint / oracle). Unentitled or substituted cells must fail and leave the store unchanged; baselines must succeed (unreached cells are reported; none on the clean tree). About 4 300 cells per world; 160 worlds quick / 2 400 thorough.",
+   ref="DESIGN.md §6 C08, Appendix B"),
  "C09": dict(tech="PBT (proptest) over fabricated oracle accounts against the public price-adapter API + exact-rational oracle",
    text="Pure-function half: every oracle kind (Pyth push, Switchboard pull, fixed, staked, Kamino/Drift/Solend exchange-rate variants) x prices/EMA/confidence/exponents over their integer ranges x publish times around the staleness boundary x max-age / max-confidence settings x authenticity faults (wrong key, owner, discriminator, truncated data, partial verification): a usable price only if authentic, fresh and confident; low <= p <= high with band = min(k*sigma, 5% p) within derived ulps; both outcomes observed on each boundary.",
    ref="DESIGN.md §6 C09", note="Pure functions called natively with fabricated AccountInfos (no runtime). Instruction-level half (doctored oracle inside borrow/withdraw/liquidate/bankruptcy) is exercised by C04's stale-collateral cases and the campaign; exact-rational reference arithmetic."),
